@@ -133,7 +133,8 @@ func treeCase(md goldmark.Markdown, cf Cfg, src []byte) (args []string, result s
 			ok = false
 		}
 	}()
-	if len(src) > 3000 {
+	if len(src) > 3000 || cf.Opts || cf.FnPrefix != "" {
+		// (the renderer model has no extension options)
 		return nil, "", false
 	}
 	doc := md.Parser().Parse(text.NewReader(src))
